@@ -678,7 +678,7 @@ func RestorePollardFrom(r io.Reader) (int64, *Pollard, error) {
 
 	// Read numleaves.
 	var buf [8]byte
-	readBytes, err := r.Read(buf[:])
+	readBytes, err := io.ReadFull(r, buf[:])
 	if err != nil {
 		return totalBytes, nil, err
 	}
@@ -686,7 +686,7 @@ func RestorePollardFrom(r io.Reader) (int64, *Pollard, error) {
 	p.NumLeaves = binary.LittleEndian.Uint64(buf[:])
 
 	// Read NumDels.
-	readBytes, err = r.Read(buf[:])
+	readBytes, err = io.ReadFull(r, buf[:])
 	if err != nil {
 		return totalBytes, nil, err
 	}
@@ -721,7 +721,7 @@ func (p *Pollard) readOne(n *polNode, r io.Reader) (int64, error) {
 
 	// Read from the reader. If we're at EOF, we've finished restoring
 	// the pollard.
-	readBytes, err := r.Read(n.data[:])
+	readBytes, err := io.ReadFull(r, n.data[:])
 	if err != nil {
 		if err == io.EOF {
 			return int64(readBytes), nil
@@ -733,7 +733,7 @@ func (p *Pollard) readOne(n *polNode, r io.Reader) (int64, error) {
 	// Read leaf-ness. If this node is a leaf, then we need to store it in
 	// the map.
 	var buf [1]byte
-	readBytes, err = r.Read(buf[:])
+	readBytes, err = io.ReadFull(r, buf[:])
 	if err != nil {
 		return totalBytes, err
 	}
@@ -746,7 +746,7 @@ func (p *Pollard) readOne(n *polNode, r io.Reader) (int64, error) {
 
 	// Read if the node has nieces. If the node does have nieces, then we call readOne
 	// for the nieces as well.
-	readBytes, err = r.Read(buf[:])
+	readBytes, err = io.ReadFull(r, buf[:])
 	if err != nil {
 		return totalBytes, err
 	}
